@@ -24,10 +24,12 @@ CFG = dict(
                    ("observed:change:nexthop-validity", 5000), ("observed:change:remove", 2000), ("observed:change:drop", 1500),
                    ("state:has-aspath-over-255", 3000), ("ecmp:expected-run>=2", 2000), ("fam:evpn-type2", 40000),
                    ("state:mixed-eligible-ineligible", 60000), ("profile:debug", 1), ("profile:release", 1),
-                   ("tie-histories", 2000), ("tie:disturb:restale", 4000), ("tie:disturb:restale_llgr", 1500),
-                   ("tie:disturb:nexthop-flip", 1500), ("tie:disturb:filtered-replacement", 2000),
+                   ("tie-histories", 2000), ("tie:disturb:restale", 3500), ("tie:disturb:restale_llgr", 1500),
+                   ("tie:disturb:nexthop-flip", 1200), ("tie:disturb:filtered-replacement", 1500),
                    ("tie:follow-up-insert", 15000), ("tie:remove-best", 10000),
-                   ("rs-local:judged-with>=2-candidates", 40000)])),
+                   ("rs-local:judged-with>=2-candidates", 40000),
+                   ("tie:disturb:reconnect", 1000), ("reannounce:over-stale-entry", 800), ("reannounce:after-purge", 300),
+                   ("reannounce:same-arc", 600), ("reannounce:equal-content-new-arc", 600)])),
     # release shards get their own seeds (seed_offset) so the two profiles do not replay identical inputs
     quick=[e1("all", "c02", "debug", 2, 40), dict(e1("all", "c02", "release", 2, 40), seed_offset=500)],
     thorough=[e1("matrix", "c02", "debug", 2, 200, part="matrix"),
